@@ -105,6 +105,12 @@ func c15convert(r *vx.R, cs c15case, pts map[string]sm2ref.Point) {
 	if !pts[a].Inf {
 		wx = pts[a].X
 	}
+	rawBefore := [3][4]uint64{*p.x.GetRaw(), *p.y.GetRaw(), *p.z.GetRaw()}
+	defer func() {
+		if rawAfter := [3][4]uint64{*p.x.GetRaw(), *p.y.GetRaw(), *p.z.GetRaw()}; rawAfter != rawBefore {
+			r.Violation("pt:conversion-writes-receiver", fmt.Sprintf("Bytes / Bytes_Unsafe / GetAffineX / GetAffineX_Unsafe / IsInfinity changed the stored coordinates of %s (lambda %s): a query must leave the point as it is (it may be shared by readers)", a, la), cs)
+		}
+	}()
 	for round := 0; round < 2; round++ {
 		bs, bu := p.Bytes(), p.Bytes_Unsafe()
 		if !bytes.Equal(bs, want) {
@@ -193,6 +199,16 @@ func c15eval(r *vx.R, c c15case, pts map[string]sm2ref.Point) {
 				q = p1
 				ret = q.Add(p1, p1)
 				want = sm2ref.Add(ra, ra)
+			case 5:
+				// the receiver is a shallow copy of the first operand (acc := *p): another SM2Point value, the same
+				// coordinate storage - overlap that pointer comparison does not see
+				cp := *p1
+				q = &cp
+				ret = q.Add(p1, p2)
+			case 6:
+				cp := *p2
+				q = &cp
+				ret = q.Add(p1, p2)
 			}
 		case "double":
 			want = sm2ref.Add(ra, ra)
@@ -253,20 +269,20 @@ func c15eval(r *vx.R, c c15case, pts map[string]sm2ref.Point) {
 		}
 	}
 	// operands that are not the receiver must be untouched
-	if q != p1 {
+	if q != p1 && c.Alias != 5 {
 		x, y, z := vxCoords(p1)
 		if x.Cmp(keep1x) != 0 || y.Cmp(keep1y) != 0 || z.Cmp(keep1z) != 0 {
 			r.Violation(key+":operand1-modified", "first operand was written", c)
 		}
 	}
-	if q != p2 {
+	if q != p2 && c.Alias != 6 {
 		x, y, z := vxCoords(p2)
 		if x.Cmp(keep2x) != 0 || y.Cmp(keep2y) != 0 || z.Cmp(keep2z) != 0 {
 			r.Violation(key+":operand2-modified", "second operand was written", c)
 		}
 	}
 	// results must not share storage with their operands: mutate the result in place and look at the operands again
-	if q != p1 && q != p2 {
+	if q != p1 && q != p2 && c.Alias < 5 {
 		q.Double(q)
 		x, y, z := vxCoords(p1)
 		if x.Cmp(keep1x) != 0 || y.Cmp(keep1y) != 0 || z.Cmp(keep1z) != 0 {
@@ -336,6 +352,10 @@ func TestVX_C15_Arith(t *testing.T) {
 				for _, lb := range ls {
 					for alias := 0; alias <= 2; alias++ {
 						run(c15case{Op: "add", A: a, B: b, LA: la, LB: lb, Alias: alias})
+					}
+					if la == ls[0] || lb == ls[1] {
+						run(c15case{Op: "add", A: a, B: b, LA: la, LB: lb, Alias: 5})
+						run(c15case{Op: "add", A: a, B: b, LA: la, LB: lb, Alias: 6})
 					}
 				}
 			}
